@@ -10,7 +10,7 @@ def nontrivial(req, obs):
         # accepted by at least the HLSL flavours, with at least one resource and one pipeline
         return len(f) > 5 and "dx=ok" in f[5] and f[3] != "" and f[4] != ""
     if f[0] == "C18.annot":
-        return obs.startswith("P") or "{dx:" in obs
+        return "{dx:" in obs
     if f[0] == "C18.simplify":
         # at least one cbuffer block in the program
         return " cbuffer " in req
